@@ -265,7 +265,7 @@ def parse_numba(text: str) -> PyModule:
     except SyntaxError as e:
         raise InvalidPython(f"generated module is not valid Python: {e.msg} (line {e.lineno}: {(e.text or '').strip()[:80]})")
     conv = _Conv(m)
-    for node in tree.body:
+    for node in ast.walk(tree):
         if isinstance(node, ast.Import):
             for a in node.names:
                 m.imports.add((a.asname or a.name).split(".")[0])
